@@ -180,8 +180,8 @@ class C17(runner.Check):
 			if r.chance(0.05):
 				loci.append([c["name"], int(s), int(max(s, e))])     # duplicate input locus
 		kw = {"in_window": w, "out_window": ow,
-			"max_n_perc": r.choice([0.0, 0.05, 0.1, 0.1, 0.3, 0.5]),
-			"gc_bin_width": r.choice([0.01, 0.02, 0.02, 0.05, 0.1]),
+			"max_n_perc": r.choice([0.0, 0.05, 0.1, 0.1, 0.3, 0.5, 1.0]),
+			"gc_bin_width": r.choice([0.01, 0.02, 0.02, 0.05, 0.1, 0.03, 0.07]),
 			"signal_beta": r.choice([0.5, 1.0, 2.0]) if use_bw else 0.5,
 			"chroms": None if r.chance(0.5) else [c["name"] for c in r.sample(chroms,
 				r.randint(1, len(chroms)))],
